@@ -167,6 +167,21 @@ struct Fixture {
             switch (a.kind) {
                 case 'R': {
                     RH h(g->lock_read());
+                    if (a.pause > 0 && a.arg % 3 == 1) {
+                        // handles get copied and moved around (stored in a container, passed by value): the copy is a handle
+                        // of its own, and its death takes nothing away from the one that goes on being used
+                        (void)h->begin();
+                        handles_taken.fetch_add(1, std::memory_order_relaxed);
+                        {
+                            RH copy(h);
+                            (void)copy->begin();
+                            handles_taken.fetch_add(1, std::memory_order_relaxed);
+                            vrf::user_point();
+                        }
+                        RH moved(std::move(h));
+                        traverse(moved, tid, a, false, false);
+                        break;
+                    }
                     traverse(h, tid, a, false);
                     break;
                 }
